@@ -35,10 +35,16 @@ Qed.
 (* ---- the heap morphism --------------------------------------------------------------------- *)
 
 Inductive mcell := MA (a : nat) | MF (fd : fdef).
-Record morph := { mm : list mcell; mv : list (nat * list nat); mf : list (nat * (fdef * env)) }.
+(* mc: the COPIES — (a, c): the function object at a was made (GLOBAL_VEC 0 / COPYGLOB; ID_FUNC_ADDR) where the
+   evaluator read the function cell c *)
+Record morph := { mm : list mcell; mv : list (nat * list nat); mf : list (nat * (fdef * env));
+                  mc : list (nat * nat) }.
 
 Definition mget (m : morph) (c : nat) : option mcell := nth_error (mm m) c.
-Definition msnoc (m : morph) (x : mcell) : morph := {| mm := mm m ++ [x]; mv := mv m; mf := mf m |}.
+Definition msnoc (m : morph) (x : mcell) : morph := {| mm := mm m ++ [x]; mv := mv m; mf := mf m; mc := mc m |}.
+
+(* the value relation: a is the image of the cell c, or a copy of the function c holds *)
+Definition vrel (m : morph) (c a : nat) : Prop := mget m c = Some (MA a) \/ In (a, c) (mc m).
 
 Definition val_rel (v : cellval) (z : Z) : Prop :=
   match v with
@@ -66,6 +72,7 @@ Variable AF : list (fkind * fdef).
 Variable ftab : list nat.
 Variable TL : list ident.
 Variable FS : fsigs.
+Variable cp : bool.       (* are copies of function objects in the fragment *)
 
 Definition fun_addr (fd : fdef) (addr : nat) : Prop :=
   exists k kd, kd <> KTop /\ nth_error AF k = Some (kd, fd) /\ addr = nth (nstd + k) ftab 0%nat.
@@ -74,7 +81,7 @@ Definition fun_rel (m : morph) (fd : fdef) (cenv : env) (vec addr : nat) : Prop 
   fun_addr fd addr /\
   (forall x c, lookup x cenv = Some c -> is_fname FS x = false) /\
   exists l, In (vec, l) (mv m) /\
-    Forall2 (fun y a => exists c, lookup y cenv = Some c /\ mget m c = Some (MA a)) (fvs_fd TL fd) l.
+    Forall2 (fun y a => exists c, lookup y cenv = Some c /\ vrel m c a) (fvs_fd TL fd) l.
 
 Definition cell_rel (m : morph) (v : cellval) (hc : hcell) : Prop :=
   match v, hc with
@@ -82,6 +89,13 @@ Definition cell_rel (m : morph) (v : cellval) (hc : hcell) : Prop :=
   | (CInt _ | CBool _), HInt z => val_rel v z
   | _, _ => False
   end.
+
+(* a copy: the cell holds a function (cells of functions are not assigned to while copies exist), the object
+   at a is that function's: a top-level one, or a closure with the vector of the original *)
+Definition cp_ok (m : morph) (cs : list cellval) (h : list hcell) (a c : nat) : Prop :=
+  exists fd cenv vec addr, nth_error cs c = Some (CFun fd cenv) /\ nth_error h a = Some (HFun vec addr) /\
+    ((exists kidx, nth_error AF kidx = Some (KTop, fd) /\ addr = nth (nstd + kidx) ftab 0%nat /\ cenv = []) \/
+     (fun_rel m fd cenv vec addr /\ In (c, (fd, cenv)) (mf m))).
 
 Record MS (m : morph) (st : state) (h : list hcell) : Prop := {
   ms_len : length (mm m) = length (cells st);
@@ -95,27 +109,33 @@ Record MS (m : morph) (st : state) (h : list hcell) : Prop := {
      environment of a NAMED nested function binds the function's name to the cell itself *)
   ms_fcl : forall c fd cenv, In (c, (fd, cenv)) (mf m) ->
            nth_error (cells st) c = Some (CFun fd cenv) \/
-           exists v, nth_error (cells st) c = Some v /\ match v with CInt _ | CBool _ => True | _ => False end;
+           (cp = false /\
+            exists v, nth_error (cells st) c = Some v /\ match v with CInt _ | CBool _ => True | _ => False end);
   ms_fself : forall c fd cenv k, In (c, (fd, cenv)) (mf m) -> nth_error AF k = Some (KNamed, fd) ->
-             lookup (fd_name fd) cenv = Some c
+             lookup (fd_name fd) cenv = Some c;
+  ms_cp : forall a c, In (a, c) (mc m) -> cp_ok m (cells st) h a c;
+  ms_nocp : cp = false -> mc m = []
 }.
 
 Definition ext (m m' : morph) : Prop :=
-  (exists l, mm m' = mm m ++ l) /\ (exists l, mv m' = mv m ++ l) /\ (exists l, mf m' = mf m ++ l).
+  (exists l, mm m' = mm m ++ l) /\ (exists l, mv m' = mv m ++ l) /\ (exists l, mf m' = mf m ++ l) /\
+  (exists l, mc m' = mc m ++ l).
 
 Lemma ext_refl : forall m, ext m m.
-Proof. intros m. split; [|split]; exists []; now rewrite app_nil_r. Qed.
+Proof. intros m. split; [|split; [|split]]; exists []; now rewrite app_nil_r. Qed.
 
 Lemma ext_trans : forall a b c, ext a b -> ext b c -> ext a c.
 Proof.
-  intros a b c ((l1 & E1) & (v1 & F1) & (w1 & G1)) ((l2 & E2) & (v2 & F2) & (w2 & G2)). split; [|split].
+  intros a b c ((l1 & E1) & (v1 & F1) & (w1 & G1) & (x1 & I1)) ((l2 & E2) & (v2 & F2) & (w2 & G2) & (x2 & I2)).
+  split; [|split; [|split]].
   - exists (l1 ++ l2). rewrite E2, E1. now rewrite app_assoc.
   - exists (v1 ++ v2). rewrite F2, F1. now rewrite app_assoc.
   - exists (w1 ++ w2). rewrite G2, G1. now rewrite app_assoc.
+  - exists (x1 ++ x2). rewrite I2, I1. now rewrite app_assoc.
 Qed.
 
 Lemma ext_fcl : forall m m' x, ext m m' -> In x (mf m) -> In x (mf m').
-Proof. intros m m' x (_ & _ & (l & E)) H. rewrite E. apply in_or_app. auto. Qed.
+Proof. intros m m' x (_ & _ & (l & E) & _) H. rewrite E. apply in_or_app. auto. Qed.
 
 Lemma ext_nth : forall m m' c x, ext m m' -> mget m c = Some x -> mget m' c = Some x.
 Proof.
@@ -127,17 +147,36 @@ Lemma ext_vec : forall m m' v l, ext m m' -> In (v, l) (mv m) -> In (v, l) (mv m
 Proof. intros m m' v l (_ & (l' & E) & _) H. rewrite E. apply in_or_app. auto. Qed.
 
 Lemma ext_snoc : forall m x, ext m (msnoc m x).
-Proof. intros. split; [|split]; simpl; [eexists; eauto | exists []; now rewrite app_nil_r | exists []; now rewrite app_nil_r]. Qed.
+Proof. intros. split; [|split; [|split]]; simpl; [eexists; eauto | exists []; now rewrite app_nil_r | exists []; now rewrite app_nil_r | exists []; now rewrite app_nil_r]. Qed.
+
+Lemma ext_cp : forall m m' x, ext m m' -> In x (mc m) -> In x (mc m').
+Proof. intros m m' x (_ & _ & _ & (l & E)) H. rewrite E. apply in_or_app. auto. Qed.
+
+Lemma vrel_ext : forall m m' c a, ext m m' -> vrel m c a -> vrel m' c a.
+Proof. intros m m' c a He [H | H]; [left; eapply ext_nth; eauto | right; eapply ext_cp; eauto]. Qed.
+
+Lemma vrel_img : forall m c a, mget m c = Some (MA a) -> vrel m c a.
+Proof. intros. left. assumption. Qed.
 
 Lemma fun_rel_ext : forall m m' fd cenv vec addr, ext m m' -> fun_rel m fd cenv vec addr ->
   fun_rel m' fd cenv vec addr.
 Proof.
   intros m m' fd cenv vec addr He (Ha & Hnf & l & Hin & HF). split; [exact Ha|]. split; [exact Hnf|]. exists l. split; [eapply ext_vec; eauto|].
-  eapply Forall2_imp; [|exact HF]. intros y a (c & H1 & H2). exists c. split; [exact H1 | eapply ext_nth; eauto].
+  eapply Forall2_imp; [|exact HF]. intros y a (c & H1 & H2). exists c. split; [exact H1 | eapply vrel_ext; eauto].
 Qed.
 
 Lemma cell_rel_ext : forall m m' v hc, ext m m' -> cell_rel m v hc -> cell_rel m' v hc.
 Proof. intros m m' v hc He H. destruct v, hc; simpl in *; auto. eapply fun_rel_ext; eauto. Qed.
+
+Lemma cp_ok_mono : forall m m' cs cs' h h' a c, ext m m' ->
+  (forall c fd cenv, nth_error cs c = Some (CFun fd cenv) -> nth_error cs' c = Some (CFun fd cenv)) ->
+  (forall a vec addr, nth_error h a = Some (HFun vec addr) -> nth_error h' a = Some (HFun vec addr)) ->
+  cp_ok m cs h a c -> cp_ok m' cs' h' a c.
+Proof.
+  intros m m' cs cs' h h' a c He Hcs Hh (fd & cenv & vec & addr & A & B & D).
+  exists fd, cenv, vec, addr. split; [apply Hcs; exact A|]. split; [apply Hh; exact B|].
+  destruct D as [D | (D1 & D2)]; [left; exact D | right]. split; [eapply fun_rel_ext; eauto | eapply ext_fcl; eauto].
+Qed.
 
 Lemma cell_rel_int : forall m v z, val_rel v z -> cell_rel m v (HInt z).
 Proof. intros m v z H. destruct v; simpl in *; auto; contradiction. Qed.
@@ -146,18 +185,24 @@ Lemma cell_rel_intv : forall m v hc, cell_rel m v hc ->
   match v with CInt _ | CBool _ => True | _ => False end -> exists z, hc = HInt z /\ val_rel v z.
 Proof. intros m v hc H Hv. destruct v; try contradiction; destruct hc; simpl in H; try contradiction; eauto. Qed.
 
-Lemma MS_payload_int : forall m st h c a z, MS m st h -> mget m c = Some (MA a) ->
+Lemma MS_payload_int : forall m st h c a z, MS m st h -> vrel m c a ->
   get_int st c = Some z -> hint h a = Some z.
 Proof.
-  intros m st h c a z HMS Hm Hg. destruct (ms_rel _ _ _ HMS c a Hm) as (v & hc & Hc & Hh & Hv & _).
+  intros m st h c a z HMS [Hm | Hm] Hg.
+  2:{ destruct (ms_cp _ _ _ HMS a c Hm) as (fd & cenv & vec & addr & Hc & _).
+      unfold get_int, get_cell in Hg. rewrite Hc in Hg. discriminate. }
+  destruct (ms_rel _ _ _ HMS c a Hm) as (v & hc & Hc & Hh & Hv & _).
   unfold get_int, get_cell in Hg. rewrite Hc in Hg. destruct v; try discriminate.
   inversion Hg; subst. unfold hint. rewrite Hh. destruct hc; simpl in Hv; try contradiction. subst. reflexivity.
 Qed.
 
-Lemma MS_payload_bool : forall m st h c a b, MS m st h -> mget m c = Some (MA a) ->
+Lemma MS_payload_bool : forall m st h c a b, MS m st h -> vrel m c a ->
   get_bool st c = Some b -> hint h a = Some (b2z b).
 Proof.
-  intros m st h c a b HMS Hm Hg. destruct (ms_rel _ _ _ HMS c a Hm) as (v & hc & Hc & Hh & Hv & _).
+  intros m st h c a b HMS [Hm | Hm] Hg.
+  2:{ destruct (ms_cp _ _ _ HMS a c Hm) as (fd & cenv & vec & addr & Hc & _).
+      unfold get_bool, get_cell in Hg. rewrite Hc in Hg. discriminate. }
+  destruct (ms_rel _ _ _ HMS c a Hm) as (v & hc & Hc & Hh & Hv & _).
   unfold get_bool, get_cell in Hg. rewrite Hc in Hg. destruct v; try discriminate.
   inversion Hg; subst. unfold hint. rewrite Hh. destruct hc; simpl in Hv; try contradiction. subst. reflexivity.
 Qed.
@@ -169,24 +214,62 @@ Proof.
   unfold get_cell in Hg. rewrite Hc in Hg. inversion Hg; subst. eauto.
 Qed.
 
-(* a mapped cell holds an int, a bool or a function, never nil: == / != with nil on two references of
-   which one is nil does not apply *)
+(* the cell of a value holds an int, a bool or a function, never nil *)
+Lemma vrel_kind : forall m st h c a, MS m st h -> vrel m c a ->
+  exists v, nth_error (cells st) c = Some v /\
+    match v with CInt _ | CBool _ | CFun _ _ => True | _ => False end.
+Proof.
+  intros m st h c a HMS [Hm | Hm].
+  - destruct (ms_rel _ _ _ HMS c a Hm) as (v & hc & Hc & _ & Hv & _). exists v. split; [exact Hc|].
+    destruct v, hc; simpl in Hv; try contradiction; exact I.
+  - destruct (ms_cp _ _ _ HMS a c Hm) as (fd & cenv & vec & addr & Hc & _). exists (CFun fd cenv). split; [exact Hc | exact I].
+Qed.
+
+(* the value in an int or bool cell *)
+Lemma vrel_intv : forall m st h c a v, MS m st h -> vrel m c a -> get_cell st c = Some v ->
+  match v with CInt _ | CBool _ => True | _ => False end ->
+  exists z, nth_error h a = Some (HInt z) /\ val_rel v z.
+Proof.
+  intros m st h c a v HMS [Hm | Hm] Hg Hv.
+  - destruct (ms_rel _ _ _ HMS c a Hm) as (v' & hc & Hc & Hh & Hr & _).
+    unfold get_cell in Hg. rewrite Hc in Hg. inversion Hg; subst v'.
+    destruct v; try contradiction; destruct hc; simpl in Hr; try contradiction; eauto.
+  - destruct (ms_cp _ _ _ HMS a c Hm) as (fd & cenv & vec & addr & Hc & _).
+    unfold get_cell in Hg. rewrite Hc in Hg. inversion Hg; subst v. contradiction.
+Qed.
+
+(* == / != with nil on two references of which one is nil does not apply *)
 Lemma nil_cmp_mapped : forall op m st h c1 a1 c2 a2, MS m st h ->
-  mget m c1 = Some (MA a1) -> mget m c2 = Some (MA a2) ->
+  vrel m c1 a1 -> vrel m c2 a2 ->
   nil_cmp op (get_cell st c1) (get_cell st c2) = None.
 Proof.
   intros op m st h c1 a1 c2 a2 HMS H1 H2.
-  destruct (ms_rel _ _ _ HMS c1 a1 H1) as (v1 & hc1 & Hc1 & _ & Hv1 & _).
-  destruct (ms_rel _ _ _ HMS c2 a2 H2) as (v2 & hc2 & Hc2 & _ & Hv2 & _).
+  destruct (vrel_kind _ _ _ _ _ HMS H1) as (v1 & Hc1 & Hv1).
+  destruct (vrel_kind _ _ _ _ _ HMS H2) as (v2 & Hc2 & Hv2).
   unfold get_cell. rewrite Hc1, Hc2.
-  destruct v1, hc1; simpl in Hv1; try contradiction; destruct v2, hc2; simpl in Hv2; try contradiction;
-    reflexivity.
+  destruct v1; try contradiction; destruct v2; try contradiction; reflexivity.
 Qed.
 
-Lemma MS_addr_lt : forall m st h c a, MS m st h -> mget m c = Some (MA a) -> (a < length h)%nat.
+Lemma MS_addr_lt : forall m st h c a, MS m st h -> vrel m c a -> (a < length h)%nat.
 Proof.
-  intros m st h c a HMS Hm. destruct (ms_rel _ _ _ HMS c a Hm) as (? & ? & _ & Hh & _ & _).
-  apply nth_error_Some. congruence.
+  intros m st h c a HMS [Hm | Hm].
+  - destruct (ms_rel _ _ _ HMS c a Hm) as (? & ? & _ & Hh & _ & _).
+    apply nth_error_Some. congruence.
+  - destruct (ms_cp _ _ _ HMS a c Hm) as (fd & cenv & vec & addr & _ & Hh & _). apply nth_error_Some. congruence.
+Qed.
+
+(* what a call through a value finds *)
+Lemma vrel_fun : forall m st h c a fd cenv, MS m st h -> vrel m c a -> nth_error (cells st) c = Some (CFun fd cenv) ->
+  exists vec addr, nth_error h a = Some (HFun vec addr) /\
+    ((exists kidx, nth_error AF kidx = Some (KTop, fd) /\ addr = nth (nstd + kidx) ftab 0%nat /\ cenv = []) \/
+     (fun_rel m fd cenv vec addr /\ In (c, (fd, cenv)) (mf m))).
+Proof.
+  intros m st h c a fd cenv HMS [Hm | Hm] Hc.
+  - destruct (ms_rel _ _ _ HMS c a Hm) as (v & hc & Hc' & Hh & Hr & Hrec). rewrite Hc in Hc'. inversion Hc'; subst v.
+    destruct hc as [ | vec addr | ]; simpl in Hr; try contradiction.
+    exists vec, addr. split; [exact Hh|]. right. split; [exact Hr | apply Hrec; reflexivity].
+  - destruct (ms_cp _ _ _ HMS a c Hm) as (fd' & cenv' & vec & addr & Hc' & Hh & Hd). rewrite Hc in Hc'. inversion Hc'; subst fd' cenv'.
+    exists vec, addr. split; [exact Hh | exact Hd].
 Qed.
 
 Lemma MS_vec_lt : forall m st h v l, MS m st h -> In (v, l) (mv m) -> (v < length h)%nat.
@@ -195,7 +278,7 @@ Proof. intros m st h v l HMS Hin. apply nth_error_Some. rewrite (ms_vec _ _ _ HM
 Lemma MS_fcl_lt : forall m st h c x, MS m st h -> In (c, x) (mf m) -> (c < length (cells st))%nat.
 Proof.
   intros m st h c [fd cenv] HMS Hin. apply nth_error_Some.
-  destruct (ms_fcl _ _ _ HMS _ _ _ Hin) as [E | (v & E & _)]; rewrite E; discriminate.
+  destruct (ms_fcl _ _ _ HMS _ _ _ Hin) as [E | (_ & v & E & _)]; rewrite E; discriminate.
 Qed.
 
 Definition frec (c : nat) (v : cellval) : list (nat * (fdef * env)) :=
@@ -205,13 +288,13 @@ Definition frec (c : nat) (v : cellval) : list (nat * (fdef * env)) :=
 Lemma MS_alloc_gen : forall m st h v hc c st' pad,
   MS m st h -> cell_rel m v hc -> alloc st v = (c, st') ->
   (forall fd cenv k, v = CFun fd cenv -> nth_error AF k = Some (KNamed, fd) -> lookup (fd_name fd) cenv = Some c) ->
-  let m' := {| mm := mm m ++ [MA (length h + length pad)]; mv := mv m; mf := mf m ++ frec c v |} in
-  MS m' st' (h ++ pad ++ [hc]) /\ mget m' c = Some (MA (length h + length pad)) /\ ext m m' /\
+  let m' := {| mm := mm m ++ [MA (length h + length pad)]; mv := mv m; mf := mf m ++ frec c v; mc := mc m |} in
+  MS m' st' (h ++ pad ++ [hc]) /\ vrel m' c (length h + length pad) /\ ext m m' /\
   out st' = out st.
 Proof.
   intros m st h v hc c st' pad HMS Hv Ha Hself m'. unfold alloc in Ha. inversion Ha; subst c st'; clear Ha.
   set (a0 := (length h + length pad)%nat) in *.
-  assert (He : ext m m') by (split; [|split]; simpl; [eexists; reflexivity | exists []; now rewrite app_nil_r | eexists; reflexivity]).
+  assert (He : ext m m') by (split; [|split; [|split]]; simpl; [eexists; reflexivity | exists []; now rewrite app_nil_r | eexists; reflexivity | exists []; now rewrite app_nil_r]).
   assert (Hnew : forall c a, (length (mm m) <= c)%nat -> mget m' c = Some (MA a) -> c = length (mm m) /\ a = a0).
   { intros c a Hge Hc. unfold mget, m' in Hc. simpl in Hc. rewrite nth_error_app2 in Hc by assumption.
     destruct (c - length (mm m))%nat as [|d] eqn:Hd; simpl in Hc; [|destruct d; discriminate].
@@ -241,9 +324,9 @@ Proof.
       destruct (Nat.lt_ge_cases c1 (length (mm m))) as [L1 | G1];
       destruct (Nat.lt_ge_cases c2 (length (mm m))) as [L2 | G2].
       * eapply (ms_inj _ _ _ HMS); eauto.
-      * apply Hold in H1; [|exact L1]. apply (MS_addr_lt _ _ _ _ _ HMS) in H1.
+      * apply Hold in H1; [|exact L1]. apply vrel_img, (MS_addr_lt _ _ _ _ _ HMS) in H1.
         destruct (Hnew _ _ G2 H2). unfold a0 in *. lia.
-      * apply Hold in H2; [|exact L2]. apply (MS_addr_lt _ _ _ _ _ HMS) in H2.
+      * apply Hold in H2; [|exact L2]. apply vrel_img, (MS_addr_lt _ _ _ _ _ HMS) in H2.
         destruct (Hnew _ _ G1 H1). unfold a0 in *. lia.
       * destruct (Hnew _ _ G1 H1), (Hnew _ _ G2 H2). lia.
     + intros c fd Hm. destruct (Nat.lt_ge_cases c (length (mm m))) as [Hlt | Hge].
@@ -262,14 +345,18 @@ Proof.
       * eapply (ms_fself _ _ _ HMS); eauto.
       * unfold frec in Hin. destruct v; try contradiction. destruct Hin as [Hin | []]. inversion Hin; subst.
         eapply Hself; eauto.
-  - unfold mget, m'. simpl. rewrite <- Hlen, nth_error_app2, Nat.sub_diag by lia. reflexivity.
+    + intros a c Hin. eapply cp_ok_mono; [exact He | | | apply (ms_cp _ _ _ HMS _ _ Hin)].
+      * intros c1 fd cenv Hc. rewrite nth_error_app1; [exact Hc | apply nth_error_Some; congruence].
+      * intros a1 vec addr Hh. rewrite nth_error_app1; [exact Hh | apply nth_error_Some; congruence].
+    + apply (ms_nocp _ _ _ HMS).
+  - left. unfold mget, m'. simpl. rewrite <- Hlen, nth_error_app2, Nat.sub_diag by lia. reflexivity.
   - exact He.
   - reflexivity.
 Qed.
 
 Lemma MS_alloc : forall m st h v z c st', MS m st h -> val_rel v z -> alloc st v = (c, st') ->
   MS (msnoc m (MA (length h))) st' (h ++ [HInt z]) /\
-  mget (msnoc m (MA (length h))) c = Some (MA (length h)) /\
+  vrel (msnoc m (MA (length h))) c (length h) /\
   out st' = out st.
 Proof.
   intros m st h v z c st' HMS Hv Ha.
@@ -286,7 +373,7 @@ Qed.
 
 Lemma MS_fresh : forall m st h v z c st', MS m st h -> val_rel v z -> fresh st v = (ROk c, st') ->
   MS (msnoc m (MA (length h))) st' (h ++ [HInt z]) /\
-  mget (msnoc m (MA (length h))) c = Some (MA (length h)) /\
+  vrel (msnoc m (MA (length h))) c (length h) /\
   out st' = out st.
 Proof.
   intros m st h v z c st' HMS Hv Hf. unfold fresh in Hf.
@@ -295,10 +382,12 @@ Qed.
 
 (* assignment: the payload of the left cell is overwritten on both sides (whatever it held: a mapped cell's
    image is never a vector; a recorded closure cell becomes an int cell) *)
-Lemma MS_assign : forall m st h cl al v z, MS m st h -> mget m cl = Some (MA al) ->
+Lemma MS_assign : forall m st h cl al v z, MS m st h -> cp = false -> vrel m cl al ->
   val_rel v z -> MS m (set_cell st cl v) (list_upd h al (HInt z)).
 Proof.
-  intros m st h cl al v z HMS Hl Hv.
+  intros m st h cl al v z HMS Hcp Hl0 Hv.
+  pose proof (ms_nocp _ _ _ HMS Hcp) as Hmc.
+  assert (Hl : mget m cl = Some (MA al)) by (destruct Hl0 as [Hx | Hx]; [exact Hx | rewrite Hmc in Hx; destruct Hx]).
   assert (Hiv : match v with CInt _ | CBool _ => True | _ => False end) by (destruct v; simpl in Hv; auto).
   constructor; simpl.
   - rewrite list_upd_length. apply (ms_len _ _ _ HMS).
@@ -319,9 +408,11 @@ Proof.
     intros ->. destruct (ms_rel _ _ _ HMS cl v0 Hl) as (v' & hc & _ & Hh & Hr & _).
     rewrite (ms_vec _ _ _ HMS _ _ Hin) in Hh. inversion Hh; subst hc. destruct v'; simpl in Hr; contradiction.
   - intros c fd cenv Hin. destruct (Nat.eq_dec c cl) as [-> | Hne].
-    + right. exists v. split; [|exact Hiv]. apply nth_error_list_upd_same. eapply MS_fcl_lt; eauto.
+    + right. split; [exact Hcp|]. exists v. split; [|exact Hiv]. apply nth_error_list_upd_same. eapply MS_fcl_lt; eauto.
     + rewrite nth_error_list_upd_other by congruence. apply (ms_fcl _ _ _ HMS _ _ _ Hin).
   - exact (ms_fself _ _ _ HMS).
+  - intros a c Hin. rewrite Hmc in Hin. destruct Hin.
+  - exact (ms_nocp _ _ _ HMS).
 Qed.
 
 (* a run of sibling functions: k new cells (the evaluator's closures over the common environment e'), their
@@ -334,15 +425,15 @@ Lemma MS_run : forall m st h H' (fds : list fdef) (e : env) newvecs,
   let e' := func_env fds c0 e in
   (forall x c, lookup x e' = Some c -> is_fname FS x = false) ->
   let m' := {| mm := mm m ++ map MA (seq (length h) (length fds)); mv := mv m ++ newvecs;
-               mf := mf m ++ combine (seq c0 (length fds)) (map (fun f => (f, e')) fds) |} in
+               mf := mf m ++ combine (seq c0 (length fds)) (map (fun f => (f, e')) fds); mc := mc m |} in
   (forall j fd, nth_error fds j = Some fd ->
      exists v ad addr, nth_error H' (length h + j) = Some (HFun v addr) /\ In (v, ad) newvecs /\
        fun_addr fd addr /\
-       Forall2 (fun y a => exists c, lookup y e' = Some c /\ mget m' c = Some (MA a)) (fvs_fd TL fd) ad) ->
+       Forall2 (fun y a => exists c, lookup y e' = Some c /\ vrel m' c a) (fvs_fd TL fd) ad) ->
   MS m' (add_cells st (map (fun f => CFun f e') fds)) H'.
 Proof.
   intros m st h H' fds e newvecs HMS Hnd Hpre Hnv c0 e' Hnf m' Hslots.
-  assert (He : ext m m') by (split; [|split]; simpl; eexists; reflexivity).
+  assert (He : ext m m') by (split; [|split; [|split]]; simpl; [eexists; reflexivity | eexists; reflexivity | eexists; reflexivity | exists []; now rewrite app_nil_r]).
   assert (Hlen := ms_len _ _ _ HMS).
   assert (Hnew : forall c a, (length (mm m) <= c)%nat -> mget m' c = Some (MA a) ->
             exists j, c = (length (mm m) + j)%nat /\ a = (length h + j)%nat /\ (j < length fds)%nat).
@@ -391,9 +482,9 @@ Proof.
     destruct (Nat.lt_ge_cases c1 (length (mm m))) as [L1 | G1];
     destruct (Nat.lt_ge_cases c2 (length (mm m))) as [L2 | G2].
     + eapply (ms_inj _ _ _ HMS); eauto.
-    + apply Hold in H1; [|exact L1]. apply (MS_addr_lt _ _ _ _ _ HMS) in H1.
+    + apply Hold in H1; [|exact L1]. apply vrel_img, (MS_addr_lt _ _ _ _ _ HMS) in H1.
       destruct (Hnew _ _ G2 H2) as (j & _ & -> & _). lia.
-    + apply Hold in H2; [|exact L2]. apply (MS_addr_lt _ _ _ _ _ HMS) in H2.
+    + apply Hold in H2; [|exact L2]. apply vrel_img, (MS_addr_lt _ _ _ _ _ HMS) in H2.
       destruct (Hnew _ _ G1 H1) as (j & _ & -> & _). lia.
     + destruct (Hnew _ _ G1 H1) as (j1 & -> & E1 & _). destruct (Hnew _ _ G2 H2) as (j2 & -> & E2 & _). lia.
   - intros c fd Hm. destruct (Nat.lt_ge_cases c (length (mm m))) as [Hlt | Hge].
@@ -419,6 +510,10 @@ Proof.
       eapply (proj1 (NoDup_nth_error (map fd_name fds))); eauto.
       * apply nth_error_Some. congruence.
       * congruence.
+  - intros a c Hin. eapply cp_ok_mono; [exact He | | | apply (ms_cp _ _ _ HMS _ _ Hin)].
+    + intros c1 fd cenv Hc. simpl. rewrite nth_error_app1; [exact Hc | apply nth_error_Some; congruence].
+    + intros a1 vec addr Hh. rewrite Hpre; [exact Hh | apply nth_error_Some; congruence].
+  - exact (ms_nocp _ _ _ HMS).
 Qed.
 
 (* one closure (a function expression): a new cell, a new function object after a new vector *)
@@ -426,14 +521,14 @@ Lemma MS_closure : forall m st h fd (e : env) addrs addr c st',
   MS m st h -> alloc st (CFun fd e) = (c, st') ->
   fun_addr fd addr -> (forall x c, lookup x e = Some c -> is_fname FS x = false) ->
   (forall k, nth_error AF k <> Some (KNamed, fd)) ->
-  Forall2 (fun y a => exists c, lookup y e = Some c /\ mget m c = Some (MA a)) (fvs_fd TL fd) addrs ->
-  let m' := {| mm := mm m ++ [MA (S (length h))]; mv := mv m ++ [(length h, addrs)]; mf := mf m ++ [(c, (fd, e))] |} in
-  MS m' st' (h ++ [HVec addrs; HFun (length h) addr]) /\ mget m' c = Some (MA (S (length h))) /\ ext m m' /\
+  Forall2 (fun y a => exists c, lookup y e = Some c /\ vrel m c a) (fvs_fd TL fd) addrs ->
+  let m' := {| mm := mm m ++ [MA (S (length h))]; mv := mv m ++ [(length h, addrs)]; mf := mf m ++ [(c, (fd, e))]; mc := mc m |} in
+  MS m' st' (h ++ [HVec addrs; HFun (length h) addr]) /\ vrel m' c (S (length h)) /\ ext m m' /\
   out st' = out st.
 Proof.
   intros m st h fd e addrs addr c st' HMS Ha Hfa Hnf Hnn HF m'.
-  set (m1 := {| mm := mm m; mv := mv m ++ [(length h, addrs)]; mf := mf m |}).
-  assert (He1 : ext m m1) by (split; [|split]; simpl; [exists []; now rewrite app_nil_r | eexists; reflexivity | exists []; now rewrite app_nil_r]).
+  set (m1 := {| mm := mm m; mv := mv m ++ [(length h, addrs)]; mf := mf m; mc := mc m |}).
+  assert (He1 : ext m m1) by (split; [|split; [|split]]; simpl; [exists []; now rewrite app_nil_r | eexists; reflexivity | exists []; now rewrite app_nil_r | exists []; now rewrite app_nil_r]).
   assert (HMS1 : MS m1 st (h ++ [HVec addrs])).
   { constructor.
     - apply (ms_len _ _ _ HMS).
@@ -446,7 +541,11 @@ Proof.
       + rewrite nth_error_app1; [apply (ms_vec _ _ _ HMS _ _ Hin) | eapply MS_vec_lt; eauto].
       + inversion Hin; subst. rewrite nth_error_app2, Nat.sub_diag by lia. reflexivity.
     - apply (ms_fcl _ _ _ HMS).
-    - apply (ms_fself _ _ _ HMS). }
+    - apply (ms_fself _ _ _ HMS).
+    - intros a0 c0 Hin. eapply cp_ok_mono; [exact He1 | | | apply (ms_cp _ _ _ HMS _ _ Hin)].
+      + auto.
+      + intros a1 vec addr0 Hh. rewrite nth_error_app1; [exact Hh | apply nth_error_Some; congruence].
+    - apply (ms_nocp _ _ _ HMS). }
   assert (Hrel : cell_rel m1 (CFun fd e) (HFun (length h) addr)).
   { simpl. split; [exact Hfa|]. split; [exact Hnf|]. exists addrs. split.
     - unfold m1. simpl. apply in_or_app. right. left. reflexivity.
@@ -458,7 +557,38 @@ Proof.
   replace (length h + 1)%nat with (S (length h)) in A, B by lia.
   rewrite <- app_assoc in A. simpl in A.
   split; [exact A|]. split; [exact B|]. split; [|exact C].
-  unfold m'. split; [|split]; simpl; eexists; reflexivity.
+  unfold m'. split; [|split; [|split]]; simpl; [eexists; reflexivity | eexists; reflexivity | eexists; reflexivity | exists []; now rewrite app_nil_r].
+Qed.
+
+(* a copy of a function object: a new object (after `pad` machine-only cells) for the function the cell c holds *)
+Lemma MS_copy : forall m st h c fd cenv vec addr pad,
+  MS m st h -> cp = true -> nth_error (cells st) c = Some (CFun fd cenv) ->
+  ((exists kidx, nth_error AF kidx = Some (KTop, fd) /\ addr = nth (nstd + kidx) ftab 0%nat /\ cenv = []) \/
+   (fun_rel m fd cenv vec addr /\ In (c, (fd, cenv)) (mf m))) ->
+  let m' := {| mm := mm m; mv := mv m; mf := mf m; mc := mc m ++ [((length h + length pad)%nat, c)] |} in
+  MS m' st (h ++ pad ++ [HFun vec addr]) /\ vrel m' c (length h + length pad) /\ ext m m'.
+Proof.
+  intros m st h c fd cenv vec addr pad HMS Hcp Hc Hd m'.
+  assert (He : ext m m') by (split; [|split; [|split]]; simpl; [exists []; now rewrite app_nil_r | exists []; now rewrite app_nil_r | exists []; now rewrite app_nil_r | eexists; reflexivity]).
+  assert (Hh : forall a x, nth_error h a = Some x -> nth_error (h ++ pad ++ [HFun vec addr]) a = Some x).
+  { intros a x Hx. rewrite nth_error_app1; [exact Hx | apply nth_error_Some; congruence]. }
+  split; [|split; [|exact He]].
+  - constructor.
+    + apply (ms_len _ _ _ HMS).
+    + intros c0 a Hm. destruct (ms_rel _ _ _ HMS c0 a Hm) as (v & hc & A & B & D & E).
+      exists v, hc. split; [exact A|]. split; [apply Hh; exact B|]. split; [eapply cell_rel_ext; eauto | exact E].
+    + apply (ms_inj _ _ _ HMS).
+    + apply (ms_fun _ _ _ HMS).
+    + intros v l Hin. apply Hh. apply (ms_vec _ _ _ HMS _ _ Hin).
+    + apply (ms_fcl _ _ _ HMS).
+    + apply (ms_fself _ _ _ HMS).
+    + intros a c0 Hin. unfold m' in Hin. simpl in Hin. apply in_app_or in Hin. destruct Hin as [Hin | [Hin | []]].
+      * eapply cp_ok_mono; [exact He | | | apply (ms_cp _ _ _ HMS _ _ Hin)]; [auto|]. intros; apply Hh; assumption.
+      * inversion Hin; subst a c0. exists fd, cenv, vec, addr. split; [exact Hc|]. split.
+        -- rewrite app_assoc, nth_error_app2 by (rewrite app_length; lia). rewrite app_length, Nat.sub_diag. reflexivity.
+        -- destruct Hd as [Hd | (D1 & D2)]; [left; exact Hd | right]. split; [eapply fun_rel_ext; eauto | exact D2].
+    + intros Hx. congruence.
+  - right. unfold m'. simpl. apply in_or_app. right. left. reflexivity.
 Qed.
 
 End Rel.
@@ -587,7 +717,7 @@ Definition self_match (G : ginfo) (fc : fctx) (gp : nat) (gl : list nat) (m : mo
     exists cf kself sfd scenv,
       lookup f e = Some cf /\ In (cf, (sfd, scenv)) (mf m) /\ fd_name sfd = f /\
       nth_error (g_all G) kself = Some (KNamed, sfd) /\ In (gp, gl) (mv m) /\
-      Forall2 (fun y a => exists c, lookup y scenv = Some c /\ mget m c = Some (MA a)) (fvs_fd (g_tl G) sfd) gl /\
+      Forall2 (fun y a => exists c, lookup y scenv = Some c /\ vrel m c a) (fvs_fd (g_tl G) sfd) gl /\
       (forall x c, lookup x scenv = Some c -> is_fname (g_sigs G) x = false).
 
 Lemma self_match_ext : forall G fc gp gl m m' e ce, self_match G fc gp gl m e ce -> ext m m' ->
@@ -596,13 +726,13 @@ Proof.
   intros G fc gp gl m m' e ce H He f Hf Hc. destruct (H f Hf Hc) as (cf & k & sfd & scenv & A & B & C & D & E & F & I).
   exists cf, k, sfd, scenv. split; [exact A|]. split; [eapply ext_fcl; eauto|]. split; [exact C|]. split; [exact D|].
   split; [eapply ext_vec; eauto|]. split; [|exact I].
-  eapply Forall2_imp; [|exact F]. intros y a (c & Y1 & Y2). exists c. split; [exact Y1 | eapply ext_nth; eauto].
+  eapply Forall2_imp; [|exact F]. intros y a (c & Y1 & Y2). exists c. split; [exact Y1 | eapply vrel_ext; eauto].
 Qed.
 
 Definition env_match (G : ginfo) (fc : fctx) (gp : nat) (gl : list nat) (m : morph) (e : env) (ce : cenv)
   (sc : list ident) (L : Z) (stk : list nat) : Prop :=
   (forall x, mem_id x sc = true ->
-    exists c a, lookup x e = Some c /\ mget m c = Some (MA a) /\ access G fc ce L stk gl x a) /\
+    exists c a, lookup x e = Some c /\ vrel m c a /\ access G fc ce L stk gl x a) /\
   (forall x c, lookup x e = Some c -> is_fname (g_sigs G) x = false) /\
   (forall f fd, find_func f (g_funcs G) = Some fd ->
     exists cf, lookup f (g_genv G) = Some cf /\ mget m cf = Some (MF fd)) /\
@@ -616,7 +746,7 @@ Lemma env_match_ext : forall G fc gp gl m m' e ce sc L stk, env_match G fc gp gl
 Proof.
   intros G fc gp gl m m' e ce sc L stk (H & Hn & Hf & Hv & Hc & Hs & Hsc) He. split; [|split; [|split; [|split; [|split; [|split]]]]]; auto.
   - intros x Hx. destruct (H x Hx) as (c & a & H3 & H4 & H5).
-    exists c, a. repeat split; auto. eapply ext_nth; eauto.
+    exists c, a. split; [exact H3|]. split; [eapply vrel_ext; eauto | exact H5].
   - intros f fd Hfd. destruct (Hf f fd Hfd) as (cf & H1 & H2). exists cf. split; auto.
     eapply ext_nth; eauto.
   - destruct Hv as [Hv | Hv]; [left; exact Hv | right; eapply ext_vec; eauto].
@@ -640,7 +770,7 @@ Proof.
 Qed.
 
 Lemma env_match_bind : forall G fc gp gl m e ce sc L stk x c a, env_match G fc gp gl m e ce sc L stk ->
-  mget m c = Some (MA a) -> is_fname (g_sigs G) x = false -> self_is (fc_self fc) x = false ->
+  vrel m c a -> is_fname (g_sigs G) x = false -> self_is (fc_self fc) x = false ->
   env_match G fc gp gl m ((x, c) :: e) ((x, L + 1) :: ce) (x :: sc) (L + 1) (a :: stk).
 Proof.
   intros G fc gp gl m e ce sc L stk x c a H Hm Hx Hsx.
@@ -743,13 +873,13 @@ Lemma env_match_run : forall G fc gp gl m e ce sc L stk fds (st : state) (h : li
                          self_is (fc_self fc) (fd_name f) = false) ->
   length (mm m) = length (cells st) ->
   let k := length fds in
-  env_match G fc gp gl {| mm := mm m ++ map MA (seq (length h) k); mv := mv m ++ nv; mf := mf m ++ nf |}
+  env_match G fc gp gl {| mm := mm m ++ map MA (seq (length h) k); mv := mv m ++ nv; mf := mf m ++ nf; mc := mc m |}
             (func_env fds (length (cells st)) e) (func_cenv fds (L + 1) ce)
             (map fd_name fds ++ sc) (L + Z.of_nat k) (rev (seq (length h) k) ++ stk).
 Proof.
   intros G fc gp gl m e ce sc L stk fds st h nv nf Hem Hnd Hnew Hlen k.
-  set (m' := {| mm := mm m ++ map MA (seq (length h) k); mv := mv m ++ nv; mf := mf m ++ nf |}).
-  assert (He : ext m m') by (split; [|split]; simpl; eexists; reflexivity).
+  set (m' := {| mm := mm m ++ map MA (seq (length h) k); mv := mv m ++ nv; mf := mf m ++ nf; mc := mc m |}).
+  assert (He : ext m m') by (split; [|split; [|split]]; simpl; [eexists; reflexivity | eexists; reflexivity | eexists; reflexivity | exists []; now rewrite app_nil_r]).
   destruct Hem as (H1 & H2 & H3 & H4 & H5 & H6 & H7).
   assert (Hne : forall y, mem_id y sc = true -> forall f, In f fds -> fd_name f <> y).
   { intros y Hy f Hf E. destruct (Hnew f Hf) as [Hx _]. rewrite E in Hx. congruence. }
@@ -762,7 +892,7 @@ Proof.
       assert (Hjk : (j < k)%nat) by (apply nth_error_Some; congruence).
       exists (length (cells st) + j)%nat, (length h + j)%nat. split; [|split].
       * apply func_env_nth; [exact Hj|]. intros j' g Hlt Hg. eapply NoDup_later; eauto.
-      * unfold mget, m'. simpl. rewrite nth_error_app2 by lia.
+      * left. unfold mget, m'. simpl. rewrite nth_error_app2 by lia.
         replace (length (cells st) + j - length (mm m))%nat with j by lia.
         rewrite nth_error_map, (nth_error_nth' _ 0%nat) by (rewrite seq_length; exact Hjk).
         rewrite seq_nth by exact Hjk. reflexivity.
@@ -775,7 +905,7 @@ Proof.
     + destruct Hy as [Hy | Hy]; [discriminate|].
       destruct (H1 y Hy) as (c & a & Hl & Hm & Hacc). exists c, a. split; [|split].
       * rewrite func_env_other by (apply Hne; exact Hy). exact Hl.
-      * eapply ext_nth; eauto.
+      * eapply vrel_ext; eauto.
       * unfold access in *. rewrite func_cenv_other by (apply Hne; exact Hy).
         destruct (clookup y ce) as [i|]; [|exact Hacc].
         destruct Hacc as [Hle Hn]. split; [lia|].
